@@ -333,3 +333,4 @@ macro_rules! for_type {
         }
     };
 }
+pub mod fmtgen;
